@@ -14,6 +14,12 @@ is a shape the extractor does not understand (fail-closed, less serious, still w
     return-local   return <expr>     ->  rv = <expr>; return rv
     kw-calls       f(a, b)           ->  f(p=a, q=b)          (calls of module-level functions of the package
                                                                whose name is unique in the package)
+    guard-to-nested / nested-to-guard   `if c: continue` at the top of a loop body  <->  the rest nested under `if not c`
+    ifexp-to-stmt  x = a if c else b ->  if c: x = a else: x = b
+    tuple-split    a, b = x, y       ->  a = x; b = y         (no target read by a value)
+    arg-to-local   f(g(x), ..)       ->  t = g(x); f(t, ..)   (first argument of a plain call statement / assignment)
+    in-tuple-to-or x in (a, b)       ->  x == a or x == b
+    de-morgan      not (a or b)      ->  not a and not b;  if a and b  ->  if not (not a or not b)
 
     /venv/bin/python tools/equiv_probe.py [--only flip-eq,...] [--module utils/trees.py] [--sites]
 
@@ -156,6 +162,140 @@ class KwCalls(Rewrite):
         return node
 
 
+
+class GuardToNested(Rewrite):
+    """for ...: if c: continue; REST  ->  for ...: if not c: REST   (guard first in the loop body, no else)"""
+
+    def _loop(self, node):
+        node = self.generic_visit(node)
+        body = node.body
+        if len(body) >= 2 and isinstance(body[0], ast.If) and not body[0].orelse and len(body[0].body) == 1 and isinstance(body[0].body[0], ast.Continue) and self.hit():
+            node.body = [ast.If(test=_neg(body[0].test), body=body[1:], orelse=[])]
+        return node
+
+    visit_For = _loop
+    visit_While = _loop
+
+
+class NestedToGuard(Rewrite):
+    """for ...: if c: BODY  ->  for ...: if not c: continue; BODY   (the if is the whole loop body, no else)"""
+
+    def _loop(self, node):
+        node = self.generic_visit(node)
+        body = node.body
+        if len(body) == 1 and isinstance(body[0], ast.If) and not body[0].orelse and self.hit():
+            node.body = [ast.If(test=_neg(body[0].test), body=[ast.Continue()], orelse=[])] + body[0].body
+        return node
+
+    visit_For = _loop
+    visit_While = _loop
+
+
+class IfExpToStmt(Rewrite):
+    """x = a if c else b  ->  if c: x = a  else: x = b   (plain name targets, statement level)"""
+
+    def _block(self, stmts):
+        out = []
+        for st in stmts:
+            st = self.visit(st)
+            if isinstance(st, ast.Assign) and len(st.targets) == 1 and isinstance(st.targets[0], ast.Name) and isinstance(st.value, ast.IfExp) and self.hit():
+                name = st.targets[0].id
+                out.append(ast.If(
+                    test=st.value.test,
+                    body=[ast.Assign(targets=[ast.Name(id=name, ctx=ast.Store())], value=st.value.body)],
+                    orelse=[ast.Assign(targets=[ast.Name(id=name, ctx=ast.Store())], value=st.value.orelse)],
+                ))
+            else:
+                out.append(st)
+        return out
+
+    def generic_visit(self, node):
+        node = ast.NodeTransformer.generic_visit(self, node)
+        for fname in ("body", "orelse", "finalbody"):
+            blk = getattr(node, fname, None)
+            if isinstance(blk, list) and blk and isinstance(blk[0], ast.stmt):
+                setattr(node, fname, self._block(blk))
+        return node
+
+    def visit_Lambda(self, node):
+        return node
+
+
+class TupleSplit(Rewrite):
+    """a, b = x, y  ->  a = x; b = y   when no target name is read by a later value (no swap)"""
+
+    def _block(self, stmts):
+        out = []
+        for st in stmts:
+            st = self.visit(st)
+            if (
+                isinstance(st, ast.Assign) and len(st.targets) == 1 and isinstance(st.targets[0], ast.Tuple) and isinstance(st.value, ast.Tuple)
+                and len(st.targets[0].elts) == len(st.value.elts) and all(isinstance(t, ast.Name) for t in st.targets[0].elts)
+            ):
+                names = [t.id for t in st.targets[0].elts]
+                reads = {x.id for v in st.value.elts for x in ast.walk(v) if isinstance(x, ast.Name)}
+                if not (set(names) & reads) and self.hit():
+                    for t, v in zip(st.targets[0].elts, st.value.elts):
+                        out.append(ast.Assign(targets=[ast.Name(id=t.id, ctx=ast.Store())], value=v))
+                    continue
+            out.append(st)
+        return out
+
+    generic_visit = IfExpToStmt.generic_visit
+
+
+class ArgToLocal(Rewrite):
+    """f(g(x), ...) as an expression statement or plain assignment  ->  t = g(x); f(t, ...)   (first call argument that
+    is itself a call; evaluation order is unchanged because it is the first argument)"""
+
+    def _block(self, stmts):
+        out = []
+        for st in stmts:
+            st = self.visit(st)
+            call = None
+            if isinstance(st, ast.Expr) and isinstance(st.value, ast.Call):
+                call = st.value
+            elif isinstance(st, ast.Assign) and isinstance(st.value, ast.Call):
+                call = st.value
+            if call is not None and call.args and isinstance(call.args[0], ast.Call) and not isinstance(call.func, ast.Attribute) and self.hit():
+                tmp = f"arg_eq{self.count}"
+                out.append(ast.Assign(targets=[ast.Name(id=tmp, ctx=ast.Store())], value=call.args[0]))
+                call.args[0] = ast.Name(id=tmp, ctx=ast.Load())
+            out.append(st)
+        return out
+
+    generic_visit = IfExpToStmt.generic_visit
+
+
+class InTupleToOr(Rewrite):
+    """x in (a, b)  ->  x == a or x == b   (x a plain name or attribute: evaluated twice without effect)"""
+
+    def visit_Compare(self, node):
+        node = self.generic_visit(node)
+        if len(node.ops) == 1 and isinstance(node.ops[0], (ast.In, ast.NotIn)) and isinstance(node.comparators[0], (ast.Tuple, ast.List)) and 1 < len(node.comparators[0].elts) <= 3 and isinstance(node.left, (ast.Name, ast.Attribute)) and self.hit():
+            eq = ast.BoolOp(op=ast.Or(), values=[ast.Compare(left=node.left, ops=[ast.Eq()], comparators=[e]) for e in node.comparators[0].elts])
+            return eq if isinstance(node.ops[0], ast.In) else ast.UnaryOp(op=ast.Not(), operand=eq)
+        return node
+
+
+class DeMorgan(Rewrite):
+    """not (a or b)  ->  not a and not b ;  a and b (as an if / while test)  ->  not (not a or not b)"""
+
+    def visit_UnaryOp(self, node):
+        node = self.generic_visit(node)
+        if isinstance(node.op, ast.Not) and isinstance(node.operand, ast.BoolOp) and self.hit():
+            op = ast.And() if isinstance(node.operand.op, ast.Or) else ast.Or()
+            return ast.BoolOp(op=op, values=[_neg(v) for v in node.operand.values])
+        return node
+
+    def visit_If(self, node):
+        node = self.generic_visit(node)
+        if isinstance(node.test, ast.BoolOp) and self.hit():
+            op = ast.And() if isinstance(node.test.op, ast.Or) else ast.Or()
+            node.test = ast.UnaryOp(op=ast.Not(), operand=ast.BoolOp(op=op, values=[_neg(v) for v in node.test.values]))
+        return node
+
+
 def package_signatures(prog):
     seen, dup = {}, set()
     for mod in prog.modules.values():
@@ -182,6 +322,13 @@ REWRITES = {
     "aug-expand": lambda sig, only: AugExpand(only),
     "return-local": lambda sig, only: ReturnLocal(only),
     "kw-calls": lambda sig, only: KwCalls(sig, only),
+    "guard-to-nested": lambda sig, only: GuardToNested(only),
+    "nested-to-guard": lambda sig, only: NestedToGuard(only),
+    "ifexp-to-stmt": lambda sig, only: IfExpToStmt(only),
+    "tuple-split": lambda sig, only: TupleSplit(only),
+    "arg-to-local": lambda sig, only: ArgToLocal(only),
+    "in-tuple-to-or": lambda sig, only: InTupleToOr(only),
+    "de-morgan": lambda sig, only: DeMorgan(only),
 }
 
 
